@@ -816,6 +816,11 @@ def iterate(world, ex, v):
         return list(v.keys())
     if isinstance(v, SetVal):
         if v.zextra:
+            if ex.ghost.get("enumerate_sets"):
+                out = list(v.items)
+                for z in v.zextra:
+                    out += zset_elements(world, ex, z)
+                return out
             return list(v.items) + [ZSetSplat(z) for z in v.zextra]
         return permuted(world, ex, v.items)
     if isinstance(v, DictVal):
@@ -884,7 +889,7 @@ def zset_elements(world, ex, z):
         tag = ex.fresh("sz", B)
         ex.assume(tag == c)
         if ex.decide(tag):
-            if z3.is_app(z) and z.decl().eq(S.fv) and dom == Node:
+            if dom == Node and ((z3.is_app(z) and z.decl().eq(S.fv)) or any(z.eq(y) for y in ex.ghost.get("symbol_sets", []))):
                 for x in items:      # members of a free-symbol set are symbols (definition of fv)
                     world.touch(ex, x)
                     ex.assume(S.op(x) == S.SYMBOL)
